@@ -17,7 +17,8 @@ from prosemirror.transform.doc_attr_step import DocAttrStep
 PROPERTY = "C04"
 BOUNDS = ("catalogue documents of the basic/list/strict/title/fixed/iso/table schemas; one (and two chained) "
           "operations of every kind of the transform API with symbolic arguments after a fixed three-step prefix; "
-          "primitive steps as in C01")
+          "primitive steps as in C01; node-mark steps also under the exclusion schemas mx1/mx2/mx4/mx5/mx6 (leaf nodes carrying one and two marks); "
+          "set_node_markup towards every leaf type at every position (markup-leaf)")
 ASSUMPTIONS = ["histories of any length follow by induction: every operation reads only the current document (and, in "
                "set_block_type, the mapping sliced at its entry length), so invariant + per-segment invertibility compose; "
                "this argument is not discharged by the solver"]
